@@ -136,16 +136,27 @@ func (n *Node) Execute(ctx context.Context) error {
 	if err != nil {
 		return err
 	}
+	// The captured output is read while the command runs: a pipe holds only
+	// a limited amount of data, and a command that prints more than that
+	// would block forever if the pipe were read only after it has exited.
+	var buf bytes.Buffer
+	var captured chan struct{}
+	if n.outputReader != nil && n.data.Step.Output != "" {
+		captured = make(chan struct{})
+		go func(r io.Reader) {
+			defer close(captured)
+			// TODO: Error handling
+			_, _ = io.Copy(&buf, r)
+		}(n.outputReader)
+	}
 	runErr := cmd.Run()
 	n.mu.Lock()
 	n.executing = false
 	n.data.State.Error = runErr
 	n.mu.Unlock()
-	if n.outputReader != nil && n.data.Step.Output != "" {
+	if captured != nil {
 		util.LogErr("close pipe writer", n.outputWriter.Close())
-		var buf bytes.Buffer
-		// TODO: Error handling
-		_, _ = io.Copy(&buf, n.outputReader)
+		<-captured
 		ret := strings.TrimSpace(buf.String())
 		_ = os.Setenv(n.data.Step.Output, ret)
 		n.data.Step.OutputVariables.Store(
